@@ -27,7 +27,7 @@ ENV = dict(os.environ)
 ENV["CARGO_NET_OFFLINE"] = "true"
 ENV.pop("RUSTFLAGS", None)
 
-JOBS = int(os.environ.get("VERIF_JOBS", "10"))
+JOBS = int(os.environ.get("VERIF_JOBS", "14"))
 # target directories are shared per harness crate (dependencies are compiled once); set
 # VERIF_ISOLATE=1 to give every property its own, so that several checks can run at the same time
 ISOLATE = os.environ.get("VERIF_ISOLATE", "") == "1"
@@ -292,86 +292,102 @@ def main():
     fns = set()
     groups_ev = []
     kf = known_findings()
+    ngroups = max(1, len(spec["groups"]))
+    import threading
+    lock = threading.Lock()
+
+    def do_group(grp, jobs):
+            crate = grp["crate"]
+            crate_dir = os.path.join(ROOT, "harness", crate)
+            opts = checks["crates"][crate]
+            gen = opts.get("generate")
+            if gen:
+                rc, out, _ = sh(["python3"] + gen, cwd=crate_dir)
+                if rc != 0:
+                    problems.append("generator failed for %s: %s" % (crate, out[-500:]))
+                    return
+            names = sorted(all_harnesses(crate_dir))
+            sel = select(names, grp[tier] if tier in grp else grp["quick"])
+            if not sel:
+                problems.append("no harness selected in crate %s" % crate)
+                return
+            results, out, wall = run_kani(crate, sel, tier, opts, tdir_suffix=tsuf(prop), jobs=jobs)
+            # resource trouble (out of memory / timeout while many CBMC processes share the machine) is
+            # retried with few processes before it is allowed to make the check inconclusive
+            if "__build_error__" not in results:
+                again = [h for h, r in results.items() if r["status"] in ("oom", "timeout", "missing", "error", "unknown")]
+                if again:
+                    opts2 = dict(opts)
+                    opts2["harness_timeout_min"] = {tier: 2 * opts.get("harness_timeout_min", {}).get(tier, 10 if tier == "quick" else 60)}
+                    r2, out2, wall2 = run_kani(crate, again, tier, opts2, tdir_suffix=tsuf(prop), jobs=3)
+                    wall += wall2
+                    if "__build_error__" not in r2:
+                        for h, r in r2.items():
+                            r["retried"] = True
+                            results[h] = r
+            if "__build_error__" in results and opts.get("build_failure_is_violation"):
+                # the catalogue of derived types no longer compiles although /repo itself builds:
+                # the derive output is wrong for a supported shape (C18)
+                rc2, o2, _ = sh(["cargo", "build", "--offline", "--features", "serde specs-derive"], cwd=REPO)
+                if rc2 == 0:
+                    os.makedirs(REPLAY, exist_ok=True)
+                    path = os.path.join(REPLAY, "%s_build_failure.log" % prop)
+                    open(path, "w").write(results["__build_error__"])
+                    violations.append({"harness": "(build of the shape catalogue)", "check": "C18: derive output does not compile for a supported shape",
+                                       "crate": crate, "native_only": True, "replay": {"reproduced": True, "path": path, "extracted": True}})
+                else:
+                    problems.append("/repo itself does not build with the derive features: " + o2[-800:])
+                return
+            if "__build_error__" in results:
+                problems.append("build failed for crate %s (harnesses no longer compile against /repo): %s" % (crate, results["__build_error__"][-1500:]))
+                return
+            for h, r in results.items():
+                all_results[h] = dict(r, crate=crate)
+                if r["status"] == "success":
+                    if r["covers_total"] and r["covers_sat"] != r["covers_total"]:
+                        problems.append("%s: only %s of %s reachability witnesses satisfied (vacuous?)" % (h, r["covers_sat"], r["covers_total"]))
+                elif r["status"] == "failed":
+                    mine, other, untagged = [], [], []
+                    for fc in r["failed_checks"]:
+                        t = tags_of(fc["desc"])
+                        (mine if prop in t else other if t else untagged).append(fc)
+                    for fc in untagged:
+                        # a failed check that carries no property tag (pointer / bounds / overflow check,
+                        # panic inside the code under test, unwinding assertion, model capacity): it is a
+                        # violation of this property only if the counterexample reproduces natively against
+                        # the real dependencies; otherwise the check is inconclusive (exit 2)
+                        if "unwinding assertion" in fc["desc"] or "model capacity" in fc["desc"]:
+                            problems.append("%s: %s" % (h, fc["desc"]))
+                        else:
+                            violations.append({"harness": h, "check": "untagged: " + fc["desc"], "crate": crate, "untagged": True})
+                    if other:
+                        attributed_elsewhere.append({"harness": h, "checks": [f["desc"] for f in other]})
+                    for fc in mine:
+                        hit = [k for k in kf if k["property"] == prop and re.fullmatch(k["harness"], h) and k["check"] in fc["desc"]]
+                        if hit:
+                            known_hits.append({"harness": h, "check": fc["desc"], "finding": hit[0]["what"]})
+                        else:
+                            violations.append({"harness": h, "check": fc["desc"], "crate": crate})
+                else:
+                    problems.append("%s: %s" % (h, r["status"]))
+            rep = sel[0]
+            f = functions_encoded(crate, rep, tsuf(prop))
+            for h in sel[1:40:7]:
+                f = sorted(set(f) | set(functions_encoded(crate, h, tsuf(prop))))
+            fns.update(f)
+            groups_ev.append({"crate": crate, "harnesses": len(sel), "wall_s": round(wall, 1), "opts": opts})
+
+
+    # the harness crates of one property are independent: run them concurrently
+    threads = []
     for grp in spec["groups"]:
-        crate = grp["crate"]
-        crate_dir = os.path.join(ROOT, "harness", crate)
-        opts = checks["crates"][crate]
-        gen = opts.get("generate")
-        if gen:
-            rc, out, _ = sh(["python3"] + gen, cwd=crate_dir)
-            if rc != 0:
-                problems.append("generator failed for %s: %s" % (crate, out[-500:]))
-                continue
-        names = sorted(all_harnesses(crate_dir))
-        sel = select(names, grp[tier] if tier in grp else grp["quick"])
-        if not sel:
-            problems.append("no harness selected in crate %s" % crate)
-            continue
-        results, out, wall = run_kani(crate, sel, tier, opts, tdir_suffix=tsuf(prop))
-        # resource trouble (out of memory / timeout while many CBMC processes share the machine) is
-        # retried with few processes before it is allowed to make the check inconclusive
-        if "__build_error__" not in results:
-            again = [h for h, r in results.items() if r["status"] in ("oom", "timeout", "missing", "error", "unknown")]
-            if again:
-                opts2 = dict(opts)
-                opts2["harness_timeout_min"] = {tier: 2 * opts.get("harness_timeout_min", {}).get(tier, 10 if tier == "quick" else 60)}
-                r2, out2, wall2 = run_kani(crate, again, tier, opts2, tdir_suffix=tsuf(prop), jobs=3)
-                wall += wall2
-                if "__build_error__" not in r2:
-                    for h, r in r2.items():
-                        r["retried"] = True
-                        results[h] = r
-        if "__build_error__" in results and opts.get("build_failure_is_violation"):
-            # the catalogue of derived types no longer compiles although /repo itself builds:
-            # the derive output is wrong for a supported shape (C18)
-            rc2, o2, _ = sh(["cargo", "build", "--offline", "--features", "serde specs-derive"], cwd=REPO)
-            if rc2 == 0:
-                os.makedirs(REPLAY, exist_ok=True)
-                path = os.path.join(REPLAY, "%s_build_failure.log" % prop)
-                open(path, "w").write(results["__build_error__"])
-                violations.append({"harness": "(build of the shape catalogue)", "check": "C18: derive output does not compile for a supported shape",
-                                   "crate": crate, "native_only": True, "replay": {"reproduced": True, "path": path, "extracted": True}})
-            else:
-                problems.append("/repo itself does not build with the derive features: " + o2[-800:])
-            continue
-        if "__build_error__" in results:
-            problems.append("build failed for crate %s (harnesses no longer compile against /repo): %s" % (crate, results["__build_error__"][-1500:]))
-            continue
-        for h, r in results.items():
-            all_results[h] = dict(r, crate=crate)
-            if r["status"] == "success":
-                if r["covers_total"] and r["covers_sat"] != r["covers_total"]:
-                    problems.append("%s: only %s of %s reachability witnesses satisfied (vacuous?)" % (h, r["covers_sat"], r["covers_total"]))
-            elif r["status"] == "failed":
-                mine, other, untagged = [], [], []
-                for fc in r["failed_checks"]:
-                    t = tags_of(fc["desc"])
-                    (mine if prop in t else other if t else untagged).append(fc)
-                for fc in untagged:
-                    # a failed check that carries no property tag (pointer / bounds / overflow check,
-                    # panic inside the code under test, unwinding assertion, model capacity): it is a
-                    # violation of this property only if the counterexample reproduces natively against
-                    # the real dependencies; otherwise the check is inconclusive (exit 2)
-                    if "unwinding assertion" in fc["desc"] or "model capacity" in fc["desc"]:
-                        problems.append("%s: %s" % (h, fc["desc"]))
-                    else:
-                        violations.append({"harness": h, "check": "untagged: " + fc["desc"], "crate": crate, "untagged": True})
-                if other:
-                    attributed_elsewhere.append({"harness": h, "checks": [f["desc"] for f in other]})
-                for fc in mine:
-                    hit = [k for k in kf if k["property"] == prop and re.fullmatch(k["harness"], h) and k["check"] in fc["desc"]]
-                    if hit:
-                        known_hits.append({"harness": h, "check": fc["desc"], "finding": hit[0]["what"]})
-                    else:
-                        violations.append({"harness": h, "check": fc["desc"], "crate": crate})
-            else:
-                problems.append("%s: %s" % (h, r["status"]))
-        rep = sel[0]
-        f = functions_encoded(crate, rep, tsuf(prop))
-        for h in sel[1:40:7]:
-            f = sorted(set(f) | set(functions_encoded(crate, h, tsuf(prop))))
-        fns |= set(f)
-        groups_ev.append({"crate": crate, "harnesses": len(sel), "wall_s": round(wall, 1), "opts": opts})
+        share = grp.get("jobs_share", 1.0 / ngroups)
+        cap = checks["crates"][grp["crate"]].get("max_jobs", JOBS)
+        th = threading.Thread(target=do_group, args=(grp, max(2, min(cap, int(round(JOBS * share))))))
+        th.start()
+        threads.append(th)
+    for th in threads:
+        th.join()
 
     # assumption / reference-model validation on long native random histories (auxiliary)
     native_val = []
